@@ -370,6 +370,10 @@ def rule_handler_side(ctx, res):
                 elif a[0] == 'mutated' and is_param(a[1], 'addr') and a[2].endswith('SocketAddr::set_port') and len(a[3]) == 1 \
                         and is_param(root_of(strip_transparent(a[3][0])), 'message') and field_chain(strip_transparent(a[3][0]))[-2:] == ['port', '0']:
                     outs.add(('source-with-announced-port', kgood))
+                elif a[0] == 'call' and a[1] == 'std::net::SocketAddr::new' and strip_transparent(a[2][0])[0] == 'call' and strip_transparent(a[2][0])[1] == 'std::net::SocketAddr::ip' \
+                        and is_param(strip_transparent(strip_transparent(a[2][0])[2][0]), 'addr') and is_param(root_of(strip_transparent(a[2][1])), 'message') \
+                        and field_chain(strip_transparent(a[2][1]))[-2:] == ['port', '0']:
+                    outs.add(('source-with-announced-port', kgood))
                 else:
                     outs.add(('other:' + fmt(a)[:60], kgood))
         return tuple(sorted(outs))
@@ -382,6 +386,7 @@ def rule_handler_side(ctx, res):
 
 
 def run(ctx, res):
+    common.rule_closed_world(ctx, res)
     rule_consts(ctx, res)
     rule_identity(ctx, res)
     rule_insert_table(ctx, res)
